@@ -192,10 +192,10 @@ def cprNL(lat: float) -> int:
 
     if np.isclose(lat, 0):
         return 59
-    elif np.isclose(abs(lat), 87):
-        return 2
     elif lat > 87 or lat < -87:
         return 1
+    elif np.isclose(abs(lat), 87):
+        return 2
 
     nz = 15
     a = 1 - np.cos(np.pi / (2 * nz))
